@@ -75,6 +75,19 @@ class Multiplexer(ComplexDop):
             odxraise("Upper and lower bounds of limits must compareable")
         return lower_limit, upper_limit
 
+    def _get_default_case_key(self) -> int:
+        """Returns a key value which selects the default case
+
+        i.e., the smallest non-negative value that is not covered by
+        any of the regular cases."""
+        key_value = 0
+        for lower, upper in sorted(
+                cast(Tuple[int, int], self._get_case_limits(x)) for x in self.cases):
+            if lower <= key_value and key_value <= upper:
+                key_value = upper + 1
+
+        return key_value
+
     @override
     def encode_into_pdu(self, physical_value: ParameterValue, encode_state: EncodeState) -> None:
 
@@ -111,7 +124,7 @@ class Multiplexer(ComplexDop):
             if isinstance(mux_case, MultiplexerCase):
                 key_value, _ = self._get_case_limits(mux_case)
             else:
-                key_value = 0
+                key_value = self._get_default_case_key()
         elif isinstance(case_spec, int):
             applicable_cases = []
             for x in self.cases:
@@ -134,7 +147,8 @@ class Multiplexer(ComplexDop):
         elif case_spec is None:
             if self.default_case is None:
                 raise EncodeError(f"Multiplexer {self.short_name} does not define a default case")
-            key_value = 0
+            mux_case = self.default_case
+            key_value = self._get_default_case_key()
         else:
             raise EncodeError(f"Illegal case specification '{case_spec}' for "
                               f"multiplexer {self.short_name}")
